@@ -143,6 +143,8 @@ def make_rough_component(rng, nx, na, ny, levels, kpl):
     xs = []
     for k in range(nx):
         lo = rng.choice([-1.0, 0.0, 2.0]); hi = lo + rng.choice([1.0, 2.0])
+        if rng.random() < 0.2:       # zero strictly inside the domain and not its centre (so that 0.0 is in general not a node)
+            lo, hi = -2.0, 3.0
         if rng.random() < 0.15:      # an un-normalised input far from the origin relative to its width (node matching must be exact, not "close")
             lo = 1048576.0; hi = lo + 1.0
         xs.append(Variable(f'x{k}', distribution=f'U({lo}, {hi})'))
@@ -250,7 +252,9 @@ def component_cases(ctx: Ctx):
                 for k, v in enumerate(names):
                     lo, hi = comp.inputs[v].get_domain()
                     r = rng.random()
-                    if r < 0.3:
+                    if r < 0.15 and lo < 0.0 < hi and lo + hi != 0.0:
+                        x.append(0.0)        # exactly zero, inside the domain, in general not a node (padding of ragged node tables must not act as a node)
+                    elif r < 0.3:
                         x.append(float(rng.choice(td.x_grids[v])))
                     elif r < 0.4:
                         x.append(float(rng.choice(td.x_grids[v])) + rng.choice([-1, 1]) * 0.5e-8 * (hi - lo))
